@@ -607,6 +607,7 @@ class HammingReward(Rewards):
     def __call__(self, action: Sequence[Action]) -> float:
         argmax = self._argmax
         comparable,shape = extract_shape(action,argmax[0],True)
+        if not isinstance(comparable,(list,tuple,set,frozenset)): comparable = [comparable] #a single label
 
         n_intersect = 0
 
